@@ -1,4 +1,5 @@
 //@ contract nitrogql_checker::type_system_checker ::fn check_input_object
+//@   requires [C05.ts_input.pre_schema_wf] crate::schema_wf(&definitions.type_system)
 //@   ensures [C05.ts_input.frame] crate::extends_errs(old(result)@, final(result)@)
 //@   ensures [C05.ts_input.sound] final(result)@.len() == old(result)@.len() ==> crate::valid_input_object(input, definitions)
 //@   ensures [C05.ts_input.complete] crate::valid_input_object(input, definitions) ==> final(result)@.len() == old(result)@.len()
